@@ -37,3 +37,6 @@ Definition md_solvableb (i : md_inst) : bool := forallb (fun c => 1 <=? c) (caps
    single-depot instances *)
 Definition md_good (F : mdfix) (i : md_inst) : bool :=
   Nat.eqb (nd F i) (ndep i) && (fx_switch F || Nat.eqb (ndep i) 1) && (fx_switch F || Nat.eqb (start i) 0).
+
+(* the reward mode is one the code computes: minsum, minmax, lateness, and lateness_square once its branch is reachable *)
+Definition md_mode_ok (F : mdfix) (i : md_inst) : bool := Nat.ltb (mode i) 3 || (Nat.eqb (mode i) 3 && fx_sq F).
